@@ -39,6 +39,9 @@ def _pre():
     db.AddCategory("time", "time")
     db.AddCategory("depth", "length", min_value=0.0, default_value=5.0)
     db.AddCategory("width", "length", valid_units=["cm"])
+    db.AddUnitBase("force per velocity", "newton seconds per metre", "N.s/m")  # (has the legacy spelling 'Ns/m')
+    db.AddUnit("force per velocity", "kilonewton seconds per metre", "kN.s/m", lambda x: x / 1000.0, lambda x: x * 1000.0)
+    db.AddCategory("damping", "force per velocity")
     return db
 
 
@@ -90,6 +93,13 @@ def queries(V):
         ("(m*m*m) + (cm*cm*cm)", lambda: (lambda r: (r.GetValue(), r.GetUnit()))((Scalar(x, "m") * Scalar(1.0, "m") * Scalar(1.0, "m")) + (Scalar(y, "cm") * Scalar(1.0, "cm") * Scalar(1.0, "cm")))),
         ("Array m / (cm*cm)", lambda: (lambda r: (list(r.GetValues()), r.GetUnit()))(Array([x, y], "m") / (Array([y, x], "cm") * Array([1.0, 1.0], "cm")))),
         ("(cm*cm) - (m*m)", lambda: (lambda r: (r.GetValue(), r.GetUnit()))((Scalar(x, "cm") * Scalar(1.0, "cm")) - (Scalar(y, "m") * Scalar(1.0, "m")))),
+        # similar-unit search and legacy spellings
+        ("db.FindSimilarUnitMatches(km)", lambda: sorted(db().FindSimilarUnitMatches("km"))),
+        ("db.FindSimilarUnitMatches(cm)", lambda: sorted(db().FindSimilarUnitMatches("cm"))),
+        ("Scalar(x, Ns/m, damping) [legacy spelling]", lambda: (lambda s: (s.GetUnit(), s.GetCategory(), s.GetValue("kN.s/m")))(Scalar(x, "Ns/m", "damping"))),
+        ("db.CheckCategoryUnit(damping, Ns/m) [legacy spelling]", lambda: db().CheckCategoryUnit("damping", "Ns/m")),
+        ("Quantity(damping, Ns/m) / ObtainQuantity(Ns/m, damping, caption)", lambda: (Quantity("damping", "Ns/m").GetUnit(), ObtainQuantity("Ns/m", "damping", "cap").GetUnit(),
+                                                                                    Quantity("damping", "Ns/m") == ObtainQuantity("N.s/m", "damping"))),
         # a unit whose declared default category may or may not be registered yet
         ("Scalar(x,in) category-less", lambda: (lambda s: (s.GetCategory(), s.IsValid(), list(s.GetValidUnits()), s.GetValue("m")))(Scalar(x, "in"))),
         ("ObtainQuantity(in) / GetDefaultCategory(in)", lambda: (ObtainQuantity("in").GetCategory(), db().GetDefaultCategory("in"))),
@@ -115,7 +125,7 @@ def registrations(V):
     ]
 
 
-NQ, NR = 38, 11
+NQ, NR = 43, 11
 
 
 def items(tier, seed):
@@ -127,7 +137,7 @@ def items(tier, seed):
         out += [{"qs": [rng.randrange(NQ)], "rs": [rng.randrange(NR), rng.randrange(NR)]} for _ in range(4000)]
     # two registrations in a row with the whole battery asked in between (a unit's default category registered before / after the unit)
     for pair in ((9, 10), (10, 9), (0, 1), (4, 6)):
-        for q in (35, 36, 30, 8):
+        for q in (40, 41, 30, 8):
             out.append({"qs": [q], "rs": list(pair)})
     # two arithmetic queries in a row before the battery
     for a in range(30, 35):
